@@ -4,7 +4,10 @@ import (
 	"fmt"
 	"go/ast"
 	"go/printer"
+	"go/parser"
 	"go/token"
+	"path/filepath"
+	"sort"
 	"go/types"
 	"reflect"
 	"strconv"
@@ -379,7 +382,7 @@ func sexpOfStmts(l []ast.Stmt) string {
 }
 
 func funcSExp(name, rel, recv, fn string) {
-	fd := findFunc(rel, recv, fn)
+	fd := freshFuncAlpha(rel, recv, fn)
 	e := "SExp.other"
 	if fd != nil && fd.Body != nil {
 		e = sexpOfStmts(fd.Body.List)
@@ -686,8 +689,63 @@ func lockedAcross(fn *ast.FuncDecl, first string) (bool, string) {
 }
 
 // The body of a function made of if / return (and skipped simple statements) as a DExp, plus the skipped statements.
+// A fresh parse of the function (not the shared, cached AST) in which every variable DECLARED INSIDE the body
+// (:=, var, range, parameters of nested function literals) is renamed to $1, $2, ... in order of declaration:
+// the decision trees are then independent of the names a maintainer gives to locals. Parameters, receivers,
+// fields, package-level names and constants keep their names.
+func freshFuncAlpha(rel, recv, fn string) *ast.FuncDecl {
+	if findFunc(rel, recv, fn) == nil {
+		return nil
+	}
+	f, err := parser.ParseFile(fset, filepath.Join(repo, rel), nil, 0)
+	if err != nil {
+		return nil
+	}
+	var fd *ast.FuncDecl
+	for _, d := range f.Decls {
+		if x, ok := d.(*ast.FuncDecl); ok && x.Name.Name == fn && recvName(x) == recv {
+			fd = x
+		}
+	}
+	if fd == nil || fd.Body == nil {
+		return fd
+	}
+	type objInfo struct {
+		pos token.Pos
+		ids []*ast.Ident
+	}
+	objs := map[*ast.Object]*objInfo{}
+	ast.Inspect(fd.Body, func(n ast.Node) bool {
+		id, ok := n.(*ast.Ident)
+		if !ok || id.Obj == nil || id.Obj.Kind != ast.Var || id.Name == "_" {
+			return true
+		}
+		if p := id.Obj.Pos(); p < fd.Body.Pos() || p > fd.Body.End() {
+			return true
+		}
+		oi := objs[id.Obj]
+		if oi == nil {
+			oi = &objInfo{pos: id.Obj.Pos()}
+			objs[id.Obj] = oi
+		}
+		oi.ids = append(oi.ids, id)
+		return true
+	})
+	var order []*objInfo
+	for _, oi := range objs {
+		order = append(order, oi)
+	}
+	sort.Slice(order, func(i, j int) bool { return order[i].pos < order[j].pos })
+	for k, oi := range order {
+		for _, id := range oi.ids {
+			id.Name = fmt.Sprintf("$%d", k+1)
+		}
+	}
+	return fd
+}
+
 func funcDExp(name, rel, recv, fn string) {
-	fd := findFunc(rel, recv, fn)
+	fd := freshFuncAlpha(rel, recv, fn)
 	dexpLets = nil
 	e := "DExp.other"
 	if fd != nil && fd.Body != nil {
